@@ -337,26 +337,51 @@ Proof. apply live_ok_mono; [reflexivity|]. intros a o H. exists o. split; [exact
 Lemma entry_ok_set_chg m l c t : entry_ok m c t -> entry_ok (set_chg m l) c t.
 Proof. apply entry_ok_mono; [reflexivity|]. intros a o H. exists o. split; [exact H | tauto]. Qed.
 
-(** reverting the [n] newest entries *)
-Lemma revert_n_ok e n : forall m,
-  Inv m -> (n <= List.length (s_chg m))%nat -> live_ok m (firstn n (s_chg m)) ->
+(** reverting the [n] newest entries; the next [j] entries stay revertible *)
+Lemma revert_n_ok e n j : forall m,
+  Inv m -> (n <= List.length (s_chg m))%nat -> live_ok m (firstn (n + j) (s_chg m)) ->
   let m' := revert_n e n m in
-  Inv m' /\ s_db m' = s_db m /\ s_cache m' = s_cache m /\ s_chg m' = skipn n (s_chg m) /\ s_bad m' = s_bad m /\
+  Inv m' /\ live_ok m' (firstn j (s_chg m')) /\
+  s_db m' = s_db m /\ s_cache m' = s_cache m /\ s_chg m' = skipn n (s_chg m) /\ s_bad m' = s_bad m /\
   s_revs m' = s_revs m /\ s_next m' = s_next m /\ s_pend m' = s_pend m /\ s_prev m' = s_prev m /\
   s_min m' = s_min m /\ s_max m' = s_max m /\ s_gen m' = s_gen m.
 Proof.
   induction n as [|n IH]; intros m I Hn L.
-  - cbn [revert_n skipn]. split; [exact I|]. repeat split; reflexivity.
+  - cbn [revert_n skipn]. split; [exact I|]. split; [exact L|]. repeat split; reflexivity.
   - cbn [revert_n]. destruct (s_chg m) as [|c t] eqn:Ec; [simpl in Hn; lia|].
-    cbn [firstn] in L. destruct L as [Le Lt]. cbn [skipn].
+    cbn [Nat.add firstn] in L. destruct L as [Le Lt]. cbn [skipn].
     set (m0 := set_chg m t).
-    destruct (revert_change_ok e m0 c (firstn n t) (Inv_set_chg m t I) (entry_ok_set_chg m t c _ Le)
+    destruct (revert_change_ok e m0 c (firstn (n + j) t) (Inv_set_chg m t I) (entry_ok_set_chg m t c _ Le)
                                (live_ok_set_chg m t _ Lt)) as [I1 [L1 [C1 B1]]].
     destruct (revert_change_views e m0 c) as [D1 [_ [G1 [_ [_ [R1 [R2 [R3 [R4 [R5 [R6 R7]]]]]]]]]]].
     assert (Hlen : (n <= List.length (s_chg (revert_change e m0 c)))%nat) by (rewrite G1; simpl in *; lia).
-    assert (Hl : live_ok (revert_change e m0 c) (firstn n (s_chg (revert_change e m0 c)))) by (rewrite G1; exact L1).
-    destruct (IH (revert_change e m0 c) I1 Hlen Hl) as [I2 [D2 [C2 [G2 [B2 [S1 [S2 [S3 [S4 [S5 [S6 S7]]]]]]]]]]].
-    split; [exact I2|].
+    assert (Hl : live_ok (revert_change e m0 c) (firstn (n + j) (s_chg (revert_change e m0 c)))) by (rewrite G1; exact L1).
+    destruct (IH (revert_change e m0 c) I1 Hlen Hl) as [I2 [L2 [D2 [C2 [G2 [B2 [S1 [S2 [S3 [S4 [S5 [S6 S7]]]]]]]]]]]].
+    split; [exact I2|]. split; [exact L2|].
     rewrite D2, D1, C2, C1, G2, G1, B2, B1, S1, R1, S2, R2, S3, R3, S4, R4, S5, R5, S6, R6, S7, R7.
     repeat split; reflexivity.
+Qed.
+
+(** every live entry's account has its object loaded *)
+Lemma entry_ok_present m c t : entry_ok m c t -> aget (ch_acct c) (s_objs m) <> None.
+Proof.
+  destruct c as [a | a p | a p | a k p | a p]; simpl; try tauto.
+  intros [o [E _]]. congruence.
+Qed.
+
+Lemma live_ok_absent m l a : live_ok m l -> aget a (s_objs m) = None -> Forall (fun c' => ch_acct c' <> a) l.
+Proof.
+  induction l as [|c t IH]; simpl; intros H Ha; [constructor|].
+  destruct H as [H1 H2]. constructor; [| apply IH; assumption].
+  intro E. apply (entry_ok_present m c t H1). rewrite E. exact Ha.
+Qed.
+
+Lemma view_eq_trans m1 m2 m3 : view_eq m1 m2 -> view_eq m2 m3 -> view_eq m1 m3.
+Proof.
+  intros [A1 A2 A3 A4 A5] [B1 B2 B3 B4 B5]. apply Build_view_eq.
+  - congruence.
+  - congruence.
+  - congruence.
+  - intros a k. rewrite A4. apply B4.
+  - intros a. rewrite A5. apply B5.
 Qed.
